@@ -612,6 +612,8 @@ def arr_load(eng, st, base, sl, node):
         if isinstance(iv.k, tuple) and iv.k[0] == 'tuple':
             return fancy_load(eng, st, base, iv.py, node)
         if isinstance(iv.k, tuple) and iv.k[0] == 'list':
+            if nd == 2:
+                return gather_rows(eng, st, base, iv, node)     # a2d[rows] is a2d[rows, :]
             return fancy_load(eng, st, base, [iv], node)
         if isinstance(iv.k, tuple) and iv.k[0] == 'arr' and iv.k[2] == 'bool':
             raise Unsupported("boolean mask read")
